@@ -106,3 +106,25 @@ kernel('disc_integral.B', F.DiscIntegral('integral'), 'B', sizes_quick=_fsizes(3
 kernel('disc_avrg.B', F.DiscIntegral('avrg'), 'B', sizes_quick=_fsizes(3, ['none', 'one'], 0) + _fsizes(2, ['list2'], 0),
        sizes_thorough=_fsizes(4, ['none', 'one'], 0) + _fsizes(3, ['list2'], 0), bound_text=_BF)
 kernel('disc_plot.B', F.DiscPlot(), 'B', sizes_quick=[(n,) for n in (0, 1, 2, 3)], sizes_thorough=[(n,) for n in (0, 1, 2, 3, 4)], bound_text=_BF)
+
+# ---- plumbing: real wrappers on formal terms (native, bounded in the number of trains)
+from .base import NativeGroup  # noqa
+
+_WR = [('pyspike/generic.py', f) for f in ('resolve_keywords', '_generic_profile_multi', '_generic_distance_multi', '_generic_distance_matrix')] + \
+      [('pyspike/isi_distance.py', f) for f in ('isi_profile', 'isi_profile_bi', 'isi_profile_multi', 'isi_distance', 'isi_distance_bi', 'isi_distance_multi', 'isi_distance_matrix')] + \
+      [('pyspike/spike_distance.py', f) for f in ('spike_profile', 'spike_profile_bi', 'spike_profile_multi', 'spike_distance', 'spike_distance_bi', 'spike_distance_multi', 'spike_distance_matrix')] + \
+      [('pyspike/spike_sync.py', f) for f in ('spike_sync_profile', 'spike_sync_profile_bi', 'spike_sync_profile_multi', '_spike_sync_values', 'spike_sync', 'spike_sync_bi', 'spike_sync_multi', 'spike_sync_matrix')] + \
+      [('pyspike/spike_directionality.py', f) for f in ('spike_directionality_values', '_spike_directionality_values_impl', 'spike_directionality', 'spike_directionality_matrix', 'spike_train_order_profile', 'spike_train_order_profile_bi', 'spike_train_order_profile_multi', '_spike_train_order_impl', 'spike_train_order', 'spike_train_order_bi', 'spike_train_order_multi')]
+_BN = 'N <= %d trains (quick) / <= %d (thorough); every ordered index subset of size >= 2; unbounded in the train contents (kernels, classes abstract)'
+register(NativeGroup('plumb.forms', dict(quick=[('forms', 3)], thorough=[('forms', 3), ('forms', 4)]), _BN % (3, 4), _WR))
+register(NativeGroup('plumb.degenerate', dict(quick=[('degenerate', 2), ('degenerate', 3)], thorough=[('degenerate', 2), ('degenerate', 3), ('degenerate', 4)]),
+                     _BN % (3, 4) + '; every pattern of empty / non-empty trains', _WR))
+register(NativeGroup('plumb.reconcile', dict(quick=[('reconcile', 2), ('reconcile', 3)], thorough=[('reconcile', 2), ('reconcile', 3), ('reconcile', 4)]), _BN % (3, 4), _WR))
+register(NativeGroup('plumb.auto', dict(quick=[('auto', 2), ('auto', 3)], thorough=[('auto', 2), ('auto', 3), ('auto', 4)]), _BN % (3, 4), _WR))
+register(NativeGroup('plumb.profile_avg', dict(quick=[('profile_avg', 2), ('profile_avg', 3)], thorough=[('profile_avg', 2), ('profile_avg', 3), ('profile_avg', 4)]),
+                     _BN % (3, 4) + '; every emptiness pattern; whole recording, one sub-interval, list of sub-intervals', _WR))
+register(NativeGroup('plumb.filter', dict(quick=[('filter', 2), ('filter', 3)], thorough=[('filter', 2), ('filter', 3), ('filter', 4)]),
+                     'N <= 3 trains (quick) / 4 (thorough), <= 2 spikes per train; every 0/1 outcome of the per-spike indicator kernel; thresholds {0, k/(N-1), .3, .5, 1}',
+                     [('pyspike/spike_sync.py', 'filter_by_spike_sync')]))
+from . import relations  # noqa
+from . import lemmas  # noqa
